@@ -48,8 +48,7 @@ pub const MODULES: &[ModuleSpec] = &[
     skip: &[
       // Rc/Arc::new_uninit + write_zeroes: hand-modelled (Model/ZeroGuard.v)
       "zeroed_arc", "zeroed_arc_slice", "zeroed_rc", "zeroed_rc_slice",
-      // allocator calls / byte copies / trait-dispatched BoxBytes conversions: hand-modelled (Model/Alloc.v)
-      "try_zeroed_box", "zeroed_box", "try_zeroed_vec", "zeroed_vec", "try_zeroed_slice_box", "zeroed_slice_box",
+      // byte copies / trait-dispatched BoxBytes conversions: hand-modelled (Model/Alloc.v)
       "pod_collect_to_vec", "box_bytes_of", "from_box_bytes", "try_from_box_bytes",
     ],
     imports: &["Internal", "Root"],
